@@ -91,6 +91,8 @@ dev_impl! {
         out.push(("tensor-unit-left", Self::c06_un(Some(unit.tensor(&p)))));
         out.push(("initial-object", Self::c06_un(Some(FiniteFunction::<K>::identity(<FiniteFunction<K> as Coproduct>::initial_object())))));
         out.push(("source-target", Val::F(Some((vec![p.source(), p.target(), <FiniteFunction<K> as Arrow>::source(&r), <FiniteFunction<K> as Arrow>::target(&r)], 0)))));
+        // equality of finite functions is equality of tables and codomains
+        out.push(("equality", Val::F(Some((vec![(p == p.clone()) as usize, (p == r) as usize, (r == p) as usize], 0)))));
         out.push(("twist", Self::c06_un(Some(<FiniteFunction<K> as SymmetricMonoidal>::twist(c.a, c.b)))));
         out.push(("transpose", Self::c06_un(Some(FiniteFunction::<K>::transpose(c.a, c.b)))));
         out.push(("cumulative_sum", Self::c06_un(Some(sizes.cumulative_sum()))));
@@ -246,6 +248,7 @@ fn control_ref(c: &Case, name: &str) -> Val {
         "tensor-unit-right" | "tensor-unit-left" => Val::F(Some(p.clone())),
         "initial-object" => Val::F(Some((vec![], 0))),
         "source-target" => Val::F(Some((vec![p.0.len(), p.1, r.0.len(), r.1], 0))),
+        "equality" => Val::F(Some((vec![1, (p == r) as usize, (r == p) as usize], 0))),
         "twist" => Val::F(Some(((0..a).map(|i| b + i).chain(0..b).collect(), a + b))),
         "transpose" => {
             // matrix with b rows and a columns, row-major, sent to its transpose
@@ -524,7 +527,7 @@ impl Check for C06 {
         ]
     }
     fn rule() -> &'static str {
-        "Each run draws: a pair (f,g) into a codomain of 0-8(10) elements with tables of length 0-12(16) (parallel in 10/12 of the runs, else differing in codomain or length; 1/5 chained so that long chains collapse), a surjection q (random, or the reference quotient of (f,g)), a label array and a finite function on q's domain that are constant on q's fibres and then, in half of the runs, damaged (one entry changed, wrong length), and general functions / sizes / index maps / small integers for the control clauses. On sim/control, vec and 1-4 perturbed schedules: coequalizer must be defined iff parallel and be a surjection whose fibres are exactly the classes generated by f(i) ~ g(i) (partition equality with a reference union-find, so 'merges too much' is caught); the universal map through q (given, or the coequalizer just computed) must be Some(u) with q;u = f iff f has q's domain as domain and is constant on fibres, None otherwise; control clauses (compose, compose with label arrays, identity, initial, terminal, constant, inj0/1, inject0/1, coproduct, tensor, tensor with the identity on the monoidal unit, the initial object, source/target accessors, twist, transpose, cumulative_sum, injections, is_injective, operator sugar, FiniteFunction::new accepting exactly the tables of functions, the SemifiniteArrow wrapper) must equal their meaning on functions-as-Vec. Non-trivial iff f or q has a non-empty table; distinct = distinct (workload fingerprint, device decision fingerprint). Five stress cases (chains in both directions and orders, a star and a random graph on 3*10^5 / 10^6 elements) run in child processes on a 2 MiB stack."
+        "Each run draws: a pair (f,g) into a codomain of 0-8(10) elements with tables of length 0-12(16) (parallel in 10/12 of the runs, else differing in codomain or length; 1/5 chained so that long chains collapse), a surjection q (random, or the reference quotient of (f,g)), a label array and a finite function on q's domain that are constant on q's fibres and then, in half of the runs, damaged (one entry changed, wrong length), and general functions / sizes / index maps / small integers for the control clauses. On sim/control, vec and 1-4 perturbed schedules: coequalizer must be defined iff parallel and be a surjection whose fibres are exactly the classes generated by f(i) ~ g(i) (partition equality with a reference union-find, so 'merges too much' is caught); the universal map through q (given, or the coequalizer just computed) must be Some(u) with q;u = f iff f has q's domain as domain and is constant on fibres, None otherwise; control clauses (compose, compose with label arrays, identity, initial, terminal, constant, inj0/1, inject0/1, coproduct, tensor, tensor with the identity on the monoidal unit, the initial object, source/target accessors, equality, the wrapper's Identity not composable after a finite function, twist, transpose, cumulative_sum, injections, is_injective, operator sugar, FiniteFunction::new accepting exactly the tables of functions, the SemifiniteArrow wrapper) must equal their meaning on functions-as-Vec. Non-trivial iff f or q has a non-empty table; distinct = distinct (workload fingerprint, device decision fingerprint). Five stress cases (chains in both directions and orders, a star and a random graph on 3*10^5 / 10^6 elements) run in child processes on a 2 MiB stack."
     }
     fn assumptions() -> Vec<&'static str> {
         vec![
